@@ -35,7 +35,7 @@ def make_stub_omega(d):
 
 
 class RarSetup:
-    def __init__(self, repo, kind, d=2, m_res=2, system=False, real_samplers=False):
+    def __init__(self, repo, kind, d=2, m_res=2, system=False, real_samplers=False, het=False):
         self.w = make_world(repo)
         self.G = GenEnv(repo, self.w)
         self.E = LossEnv(repo, self.w)
@@ -50,7 +50,16 @@ class RarSetup:
             self.params = self.S.params
         else:
             # the non-stationary branch reshapes the residuals to (candidate times, candidate points): scalar residuals only
-            self.S = SingleLoss(self.E, eq_type, 'PINN', d=d, m_u=1, m_res=(1 if kind == 'nonstatio' else m_res), terms=('dyn',))
+            dyn = None
+            if het:
+                # the equation parameter nu is declared heterogeneous: the residual that ranks the candidates is the one of the
+                # wrapped dynamic loss (nu replaced by the user function's value at the candidate)
+                def het_nu(*a):
+                    pts_ = [to_at(v) for v in a[:-2]]
+                    deps = frozenset().union(*[p_.deps() for v in pts_ for p_ in v.entries()])
+                    return to_at(Poly.atom(('F', 'het_nu', None, deps)))
+                dyn = self.E.user_dynamic_loss(eq_type, (1 if kind == 'nonstatio' else m_res), heterogeneity={'nu': het_nu})
+            self.S = SingleLoss(self.E, eq_type, 'PINN', d=d, m_u=1, m_res=(1 if kind == 'nonstatio' else m_res), terms=('dyn',), dyn=dyn)
             self.params = self.S.params
         self.loss = self.S.loss
         if kind == 'ode':
